@@ -1,7 +1,28 @@
 (* C20 property theorems: statements closed by [exact lemma] + Print Assumptions. *)
-From V Require Import Common.Base C20.Protocol C20.ProtocolProofs.
+From V Require Import Common.Base C20.Protocol C20.ProtocolProofs C20.CtxLTS C20.CtxProofs.
 
 (* writeUint32 / readUint32: little-endian round trip modulo 2^32, any trailing bytes *)
 Theorem uint32_roundtrip : forall n r, read32 (le32 n ++ r) = Some (n mod 4294967296, r).
 Proof. exact read32_le32. Qed.
 Print Assumptions uint32_roundtrip.
+
+(* In every reachable state of the context LTS (any number of threads, any
+   interleaving of Rebuild/Cancel/Dispose/Watch calls, edits and watcher
+   ticks) at most one thread is inside rebuildImpl, and for one build only. *)
+Theorem at_most_one_build_running : forall s, reachable s ->
+  forall t1 t2 b1 b2, (t1 < nt s)%nat -> (t2 < nt s)%nat ->
+    phase_of (t_pc (thr s t1)) = Some b1 -> phase_of (t_pc (thr s t2)) = Some b2 ->
+    t1 = t2 /\ b1 = b2.
+Proof. exact one_build_running. Qed.
+Print Assumptions at_most_one_build_running.
+
+(* Deadlock freedom: in every reachable state, as long as some thread has not
+   returned, the system itself (a thread step or the passing of time in the
+   watcher goroutine; no new call, no edit) can take a step.  The termination
+   of rebuildImpl is built into the model: the owner's phase steps are always
+   enabled. *)
+Theorem deadlock_free : forall s, reachable s ->
+  forall t, (t < nt s)%nat -> is_ret (t_pc (thr s t)) = false ->
+  exists a s' l, system a = true /\ exec s a = Some (s', l).
+Proof. intros s R. exact (progress_inv s (sinv_reachable s R)). Qed.
+Print Assumptions deadlock_free.
